@@ -15,6 +15,9 @@ thread_local! {
     pub static ASSOCIATED_IO_RET: Arc<AtomicOption<Box<EventResult>>> = Arc::new(AtomicOption::none());
     pub static PROXY_CO_SENDER: Sender<EventSubscriber> = {
         let (tx, rx) = channel();
+        #[cfg(may_verif)]
+        let parker = crate::verif::thread::current();
+        #[cfg(not(may_verif))]
         let parker = std::thread::current();
         let io_ret = ASSOCIATED_IO_RET.with(|r| { r.clone() });
         // this is a proxy coroutine
